@@ -2476,14 +2476,14 @@ class MSSQLCompiler(compiler.SQLCompiler):
 
     def visit_is_distinct_from_binary(self, binary, operator, **kw):
         return "NOT EXISTS (SELECT %s INTERSECT SELECT %s)" % (
-            self.process(binary.left),
-            self.process(binary.right),
+            self.process(binary.left, **kw),
+            self.process(binary.right, **kw),
         )
 
     def visit_is_not_distinct_from_binary(self, binary, operator, **kw):
         return "EXISTS (SELECT %s INTERSECT SELECT %s)" % (
-            self.process(binary.left),
-            self.process(binary.right),
+            self.process(binary.left, **kw),
+            self.process(binary.right, **kw),
         )
 
     def _render_json_extract_from_binary(self, binary, operator, **kw):
